@@ -129,6 +129,8 @@ def removal_census(fx, res, rule):
 
 def run(ctx):
     fx, res = ctx.fx, ctx.res
+    import lemmas
+    lemmas.flat_map_lockstep(fx, res, "R7.1")     # ArgMatcher::remove (Set / SetTrue / Count replacement, remove_overrides) goes through FlatMap::remove
     rc = fx.body("clap_builder::parser::parser::Parser::react")
     acts = enum_variants(fx, "builder::action::ArgAction")
     res.floor("R7.1", "ArgAction variants", len(acts), 9)
